@@ -390,7 +390,7 @@ func runWorker(p Property, cfg Config, tier string, shard, nshards int, deadline
 			dir := filepath.Join(genDir(), "race")
 			os.MkdirAll(dir, 0o755)
 			cmd.Env = append(cmd.Env, "GOMAXPROCS=1", "VERIF_RACE_LOG="+filepath.Join(dir, "r"),
-				"GORACE=halt_on_error=0 exitcode=0 history_size=5 log_path="+filepath.Join(dir, "r"))
+				"GORACE=halt_on_error=0 exitcode=0 history_size=7 log_path="+filepath.Join(dir, "r"))
 		}
 		stdout, _ := cmd.StdoutPipe()
 		var errBuf tailBuf
